@@ -855,16 +855,21 @@ Proof.
   destruct refresh; reflexivity.
 Qed.
 
-(* the frames of a history: (refresh?, graphicsNext at that render) *)
-Fixpoint frames_of (gnext : list placement) (ops : list gop) : list (bool * list placement) :=
+(* the frames of a history: (full refresh?, graphicsNext at that render).  A frame is a full refresh
+   when it is a Refresh or the first frame after a change of the terminal size ([rf] = vx.refresh is
+   set when the history starts). *)
+Fixpoint frames_from (rf : bool) (gnext : list placement) (ops : list gop) : list (bool * list placement) :=
   match ops with
   | [] => []
-  | OClear :: t => frames_of [] t
-  | ODraw p ww wh :: t => frames_of (draw_into gnext p ww wh) t
-  | ORender :: t => (false, gnext) :: frames_of gnext t
-  | ORefresh :: t => (true, gnext) :: frames_of gnext t
-  | OResize _ :: t => frames_of gnext t
+  | OClear :: t => frames_from rf [] t
+  | ODraw p ww wh :: t => frames_from rf (draw_into gnext p ww wh) t
+  | ORender :: t => (rf, gnext) :: frames_from false gnext t
+  | ORefresh :: t => (true, gnext) :: frames_from false gnext t
+  | OResize _ :: t => frames_from rf gnext t
+  | OTermResize :: t => frames_from true gnext t
   end.
+Definition frames_of (gnext : list placement) (ops : list gop) : list (bool * list placement) :=
+  frames_from false gnext ops.
 
 Fixpoint spec_events (prev : list placement) (frames : list (bool * list placement)) : list (list gevent) :=
   match frames with
@@ -873,27 +878,28 @@ Fixpoint spec_events (prev : list placement) (frames : list (bool * list placeme
   end.
 
 Lemma run_ops_spec s ops :
-  run_ops s ops = spec_events (g_last s) (frames_of (g_next s) ops).
+  run_ops s ops = spec_events (g_last s) (frames_from (g_refresh s) (g_next s) ops).
 Proof.
   revert s. induction ops as [|o t IH]; intros s; [reflexivity|].
-  destruct o; cbn [run_ops frames_of spec_events].
+  destruct o; cbn [run_ops frames_from spec_events].
   - rewrite IH. reflexivity.
   - rewrite IH. reflexivity.
   - rewrite render_graphics_spec. rewrite IH. reflexivity.
   - rewrite render_graphics_spec. rewrite IH. reflexivity.
   - apply IH.
+  - rewrite IH. reflexivity.
 Qed.
 
 (* a placement shown in some frame was drawn into a window at least as large as the image *)
 Lemma frames_of_inside ops :
-  forall (Q : placement -> Prop) gnext, (forall p, In p gnext -> Q p) ->
-  forall i r cur p, nth_error (frames_of gnext ops) i = Some (r, cur) -> In p cur ->
+  forall (Q : placement -> Prop) rf gnext, (forall p, In p gnext -> Q p) ->
+  forall i r cur p, nth_error (frames_from rf gnext ops) i = Some (r, cur) -> In p cur ->
   Q p \/ exists ww wh, In (ODraw p ww wh) ops /\ p_w p <= ww /\ p_h p <= wh.
 Proof.
-  induction ops as [|o t IH]; intros Q gnext HQ i r cur p H I.
+  induction ops as [|o t IH]; intros Q rf gnext HQ i r cur p H I.
   - destruct i; discriminate.
-  - destruct o as [|q ww wh| | |j0]; cbn [frames_of] in H.
-    + destruct (IH Q [] ltac:(intros ? []) i r cur p H I) as [L|[a [b [J K]]]]; [left; exact L|].
+  - destruct o as [|q ww wh| | |j0|]; cbn [frames_from] in H.
+    + destruct (IH Q rf [] ltac:(intros ? []) i r cur p H I) as [L|[a [b [J K]]]]; [left; exact L|].
       right. exists a, b. split; [right; exact J | exact K].
     + set (Q' := fun p' => Q p' \/ (p' = q /\ p_w q <= ww /\ p_h q <= wh)).
       assert (HQ' : forall p', In p' (draw_into gnext q ww wh) -> Q' p').
@@ -902,19 +908,21 @@ Proof.
         - left. apply HQ. exact I'.
         - apply in_app_iff in I'. destruct I' as [I' | [<- | []]]; [left; apply HQ; exact I'|].
           right. split; [reflexivity|]. lia. }
-      destruct (IH Q' _ HQ' i r cur p H I) as [[L | [-> L]] | [a [b [J K]]]].
+      destruct (IH Q' rf _ HQ' i r cur p H I) as [[L | [-> L]] | [a [b [J K]]]].
       * left; exact L.
       * right. exists ww, wh. split; [left; reflexivity | exact L].
       * right. exists a, b. split; [right; exact J | exact K].
     + destruct i as [|j]; cbn [nth_error] in H.
       * injection H as <- <-. left. apply HQ. exact I.
-      * destruct (IH Q gnext HQ j r cur p H I) as [L | [a [b [J K]]]]; [left; exact L|].
+      * destruct (IH Q false gnext HQ j r cur p H I) as [L | [a [b [J K]]]]; [left; exact L|].
         right. exists a, b. split; [right; exact J | exact K].
     + destruct i as [|j]; cbn [nth_error] in H.
       * injection H as <- <-. left. apply HQ. exact I.
-      * destruct (IH Q gnext HQ j r cur p H I) as [L | [a [b [J K]]]]; [left; exact L|].
+      * destruct (IH Q false gnext HQ j r cur p H I) as [L | [a [b [J K]]]]; [left; exact L|].
         right. exists a, b. split; [right; exact J | exact K].
-    + destruct (IH Q gnext HQ i r cur p H I) as [L | [a [b [J K]]]]; [left; exact L|].
+    + destruct (IH Q rf gnext HQ i r cur p H I) as [L | [a [b [J K]]]]; [left; exact L|].
+      right. exists a, b. split; [right; exact J | exact K].
+    + destruct (IH Q true gnext HQ i r cur p H I) as [L | [a [b [J K]]]]; [left; exact L|].
       right. exists a, b. split; [right; exact J | exact K].
 Qed.
 
@@ -923,7 +931,7 @@ Theorem placement_inside_window ops i r cur p :
   exists ww wh, In (ODraw p ww wh) ops /\ p_w p <= ww /\ p_h p <= wh.
 Proof.
   intros H I.
-  destruct (frames_of_inside ops (fun _ => False) [] ltac:(intros ? []) i r cur p H I) as [[] | E]. exact E.
+  destruct (frames_of_inside ops (fun _ => False) false [] ltac:(intros ? []) i r cur p H I) as [[] | E]. exact E.
 Qed.
 
 (* graphicsNext of the previous frame (nothing before the first) *)
@@ -980,7 +988,7 @@ Theorem placement_protocol ops i r cur :
     (forall p, In (GWrite p) evs <-> In p cur /\ (r = true \/ ~ In p (prev_frame (frames_of [] ops) i))) /\
     (forall p, In (GDelete p) evs <-> In p (prev_frame (frames_of [] ops) i) /\ (r = true \/ ~ In p cur)).
 Proof.
-  intros H. rewrite run_ops_spec. cbn [g_init g_last g_next].
+  intros H. rewrite run_ops_spec. cbn [g_init g_last g_next g_refresh]. fold (frames_of [] ops).
   rewrite (spec_events_nth [] _ i r cur H).
   assert (E : match i with O => [] | S _ => prev_frame (frames_of [] ops) i end = prev_frame (frames_of [] ops) i)
     by (destruct i; reflexivity).
@@ -990,7 +998,7 @@ Qed.
 
 Lemma run_ops_length ops : length (run_ops g_init ops) = length (frames_of [] ops).
 Proof.
-  rewrite run_ops_spec. cbn [g_init g_last g_next].
+  rewrite run_ops_spec. cbn [g_init g_last g_next g_refresh]. fold (frames_of [] ops).
   generalize (@nil placement) at 1. induction (frames_of [] ops) as [|[r c] t IH]; intros prev; [reflexivity|].
   cbn [spec_events length]. f_equal. apply IH.
 Qed.
@@ -1321,6 +1329,7 @@ Proof.
   - rewrite render_graphics_spec. cbn [fst map snd]. rewrite send_events_erase. f_equal. apply IH.
   - rewrite render_graphics_spec. cbn [fst map snd]. rewrite send_events_erase. f_equal. apply IH.
   - apply IH.
+  - apply IH.
 Qed.
 
 (* data is sent only for pending images ... *)
@@ -1400,8 +1409,375 @@ Proof.
   - apply IH. exact G.
   - apply orb_false_iff in G. destruct G as [G1 G2].
     rewrite render_graphics_spec in *. cbn [fst] in *.
-    rewrite (frame_trans_ok false pending (g_last s) (g_next s) G1). cbn [andb]. apply IH. exact G2.
+    rewrite (frame_trans_ok (g_refresh s) pending (g_last s) (g_next s) G1). cbn [andb]. apply IH. exact G2.
   - rewrite render_graphics_spec in *. cbn [fst] in *.
     rewrite (frame_trans_ok true pending (g_last s) (g_next s) eq_refl). cbn [andb]. apply IH. exact G.
   - apply IH. exact G.
+  - apply IH. exact G.
+Qed.
+
+(* ================================================================== the terminal's placement table *)
+
+Lemma pkey_eqb_eq a b : pkey_eqb a b = true <-> a = b.
+Proof.
+  destruct a as [[i c] r], b as [[i' c'] r']. unfold pkey_eqb. rewrite !andb_true_iff, !Z.eqb_eq.
+  split; [intros [[-> ->] ->]; reflexivity | intros E; injection E as -> -> ->; auto].
+Qed.
+
+Lemma pkey_eqb_refl a : pkey_eqb a a = true.
+Proof. apply pkey_eqb_eq. reflexivity. Qed.
+
+Lemma mem_key_In k l : mem_key k l = true <-> In k l.
+Proof.
+  unfold mem_key. rewrite existsb_exists. split.
+  - intros [j [I E]]. apply pkey_eqb_eq in E. subst. exact I.
+  - intros I. exists k. split; [exact I | apply pkey_eqb_refl].
+Qed.
+
+(* the terminal shows exactly the placements of cur *)
+Definition shows (live : list pkey) (cur : list placement) : Prop :=
+  forall k, In k live <-> In k (map key_of cur).
+
+Lemma shows_exactly_spec live cur : shows_exactly live cur = true <-> shows live cur.
+Proof.
+  unfold shows_exactly, shows. rewrite andb_true_iff, !forallb_forall. split.
+  - intros [A B] k. split; intros I.
+    + apply mem_key_In. apply A. exact I.
+    + apply in_map_iff in I. destruct I as [p [<- I]]. apply mem_key_In. apply B. exact I.
+  - intros H. split.
+    + intros k I. apply mem_key_In. apply H. exact I.
+    + intros p I. apply mem_key_In. apply H. apply in_map. exact I.
+Qed.
+
+(* image data does not touch the placements *)
+Lemma term_run_send pending evs : forall live,
+  term_run live (send_events pending evs) = term_run live (map ev_key evs).
+Proof.
+  revert pending. induction evs as [|e t IH]; intros pending live; [reflexivity|].
+  destruct e as [p | p]; cbn [send_events map ev_key].
+  - unfold term_run in *. cbn [fold_left]. apply IH.
+  - destruct (mem_id (p_id p) pending); unfold term_run in *; cbn [fold_left]; [|apply IH].
+    cbn [term_apply Z.eqb Pos.eqb]. apply IH.
+Qed.
+
+Lemma term_run_app live a b : term_run live (a ++ b) = term_run (term_run live a) b.
+Proof. unfold term_run. apply fold_left_app. Qed.
+
+Lemma term_run_deletes D : forall live k,
+  In k (term_run live (map ev_key (map GDelete D))) <-> In k live /\ ~ In k (map key_of D).
+Proof.
+  induction D as [|p t IH]; intros live k.
+  - cbn. tauto.
+  - cbn [map ev_key]. unfold term_run in *. cbn [fold_left]. rewrite IH.
+    cbn [term_apply Z.eqb]. rewrite filter_In. cbn [map In]. fold (key_of p).
+    split.
+    + intros [[A B] C]. split; [exact A|]. intros [E | E]; [|contradiction].
+      subst k. rewrite pkey_eqb_refl in B. discriminate.
+    + intros [A B]. split; [split; [exact A|] | tauto].
+      destruct (pkey_eqb k (key_of p)) eqn:E; [|reflexivity].
+      apply pkey_eqb_eq in E. subst k. exfalso. apply B. left. reflexivity.
+Qed.
+
+Lemma term_run_writes W : forall live k,
+  In k (term_run live (map ev_key (map GWrite W))) <-> In k live \/ In k (map key_of W).
+Proof.
+  induction W as [|p t IH]; intros live k.
+  - cbn. tauto.
+  - cbn [map ev_key]. unfold term_run in *. cbn [fold_left]. rewrite IH.
+    cbn [term_apply Z.eqb Pos.eqb]. cbn [map In]. fold (key_of p). tauto.
+Qed.
+
+Lemma keys_functional_spec l : keys_functional l = true ->
+  forall p q, In p l -> In q l -> key_of p = key_of q -> p = q.
+Proof.
+  unfold keys_functional. rewrite forallb_forall. intros H p q Ip Iq E.
+  specialize (H p Ip). rewrite forallb_forall in H. specialize (H q Iq).
+  rewrite E, pkey_eqb_refl in H. cbn [negb orb] in H. apply same_placement_eq. exact H.
+Qed.
+
+(* one frame: the deletions remove exactly the placements that are dropped (or all of them on a full
+   refresh), the writes add the new ones (or all) *)
+Lemma frame_shows r pending live prev cur :
+  shows live prev -> keys_functional prev = true ->
+  shows (term_run live (send_events pending (frame_events r prev cur))) cur.
+Proof.
+  intros S F k. rewrite term_run_send. unfold frame_events. rewrite map_app, term_run_app.
+  rewrite term_run_writes, term_run_deletes. rewrite (S k). split.
+  - intros [[A B] | A].
+    + apply in_map_iff in A. destruct A as [q [<- Iq]].
+      destruct r; cbn [orb] in B.
+      * exfalso. apply B. apply in_map. apply filter_In. split; [exact Iq | reflexivity].
+      * destruct (mem_p q cur) eqn:M.
+        -- apply in_map. apply mem_p_In. exact M.
+        -- exfalso. apply B. apply in_map. apply filter_In. split; [exact Iq|]. rewrite M. reflexivity.
+    + apply in_map_iff in A. destruct A as [q [<- Iq]]. apply filter_In in Iq. apply in_map. apply Iq.
+  - intros A. apply in_map_iff in A. destruct A as [p [<- Ip]].
+    destruct (r || negb (mem_p p prev)) eqn:W.
+    + right. apply in_map. apply filter_In. split; assumption.
+    + left. apply orb_false_iff in W. destruct W as [-> W]. apply negb_false_iff in W. apply mem_p_In in W.
+      split; [apply in_map; exact W|]. intros B. apply in_map_iff in B. destruct B as [q [E Iq]].
+      apply filter_In in Iq. destruct Iq as [Iq Dq]. cbn [orb] in Dq.
+      assert (q = p) by (apply (keys_functional_spec prev F); assumption). subst q.
+      apply mem_p_In in Ip. rewrite Ip in Dq. discriminate.
+Qed.
+
+Lemma kitty_frames_next ops : forall s pending,
+  map fst (kitty_frames s pending ops) = next_at_renders (g_next s) ops.
+Proof.
+  induction ops as [|o t IH]; intros s pending; [reflexivity|].
+  destruct o; cbn [kitty_frames next_at_renders map fst].
+  - rewrite IH. reflexivity.
+  - rewrite IH. reflexivity.
+  - rewrite IH. reflexivity.
+  - rewrite IH. reflexivity.
+  - apply IH.
+  - rewrite IH. reflexivity.
+Qed.
+
+(* the invariant over all histories, changes of the terminal size included *)
+Theorem terminal_invariant ops : forall s pending live,
+  shows live (g_last s) -> keys_functional (g_last s) = true ->
+  forallb keys_functional (next_at_renders (g_next s) ops) = true ->
+  term_frames_ok live (kitty_frames s pending ops) = true.
+Proof.
+  induction ops as [|o t IH]; intros s pending live S F N; [reflexivity|].
+  destruct o; cbn [kitty_frames next_at_renders term_frames_ok forallb] in *.
+  - apply IH; assumption.
+  - apply IH; assumption.
+  - apply andb_true_iff in N. destruct N as [N1 N2]. rewrite render_graphics_spec. cbn [fst].
+    assert (S' := frame_shows (g_refresh s) pending live (g_last s) (g_next s) S F).
+    apply andb_true_intro. split; [apply shows_exactly_spec; exact S'|].
+    apply IH; [exact S' | exact N1 | exact N2].
+  - apply andb_true_iff in N. destruct N as [N1 N2]. rewrite render_graphics_spec. cbn [fst].
+    assert (S' := frame_shows true pending live (g_last s) (g_next s) S F).
+    apply andb_true_intro. split; [apply shows_exactly_spec; exact S'|].
+    apply IH; [exact S' | exact N1 | exact N2].
+  - apply IH; assumption.
+  - apply IH; assumption.
+Qed.
+
+Theorem terminal_shows_last_frame ops :
+  forallb keys_functional (next_at_renders [] ops) = true ->
+  term_frames_ok [] (kitty_frames g_init [] ops) = true.
+Proof.
+  intros N. apply terminal_invariant; [intros k; cbn; tauto | reflexivity | exact N].
+Qed.
+
+Lemma forallb_map' {A B} (f : A -> B) (g : B -> bool) l : forallb g (map f l) = forallb (fun x => g (f x)) l.
+Proof. induction l as [|x t IH]; [reflexivity|]. cbn [map forallb]. rewrite IH. reflexivity. Qed.
+
+(* the predicate of the placement stream accepts what the model does, on every history *)
+Theorem term_shows_last_frame_model ops : term_shows_last_frame (kitty_frames g_init [] ops) = true.
+Proof.
+  unfold term_shows_last_frame.
+  destruct (forallb (fun f => keys_functional (fst f)) (kitty_frames g_init [] ops)) eqn:E; [|reflexivity].
+  cbn [negb orb]. apply terminal_shows_last_frame.
+  pose proof (kitty_frames_next ops g_init []) as K. cbn [g_init g_next] in K.
+  rewrite <- K. rewrite forallb_map'. exact E.
+Qed.
+
+(* the same, frame by frame: replaying everything written up to and including frame i leaves the
+   terminal with exactly the placements of frame i *)
+Definition term_after (frames : list (list placement * list wire)) (i : nat) : list pkey :=
+  fold_left term_run (map snd (firstn (S i) frames)) [].
+
+Lemma term_frames_ok_nth frames : forall live i cur ev,
+  term_frames_ok live frames = true -> nth_error frames i = Some (cur, ev) ->
+  shows (fold_left term_run (map snd (firstn (S i) frames)) live) cur.
+Proof.
+  induction frames as [|[c0 e0] t IH]; intros live i cur ev H N.
+  - destruct i; discriminate.
+  - cbn [term_frames_ok] in H. apply andb_true_iff in H. destruct H as [H1 H2].
+    destruct i as [|j]; cbn [nth_error] in N.
+    + injection N as -> ->. cbn [firstn map snd fold_left]. apply shows_exactly_spec. exact H1.
+    + cbn [firstn map snd fold_left]. exact (IH _ j cur ev H2 N).
+Qed.
+
+Theorem terminal_shows_frame ops i cur ev :
+  forallb keys_functional (next_at_renders [] ops) = true ->
+  nth_error (kitty_frames g_init [] ops) i = Some (cur, ev) ->
+  forall k, In k (term_after (kitty_frames g_init [] ops) i) <-> exists p, In p cur /\ key_of p = k.
+Proof.
+  intros N H k. unfold term_after.
+  rewrite (term_frames_ok_nth _ [] i cur ev (terminal_shows_last_frame ops N) H k).
+  rewrite in_map_iff. split; intros [p [A B]]; exists p; tauto.
+Qed.
+
+(* the flags: which frames are full refreshes *)
+Lemma refresh_at_renders_frames ops : forall rf gnext,
+  refresh_at_renders rf ops = map fst (frames_from rf gnext ops).
+Proof.
+  induction ops as [|o t IH]; intros rf gnext; [reflexivity|].
+  destruct o; cbn [refresh_at_renders frames_from map fst]; try apply IH; f_equal; apply IH.
+Qed.
+
+(* ================================================================== kitty transmissions: chunking *)
+
+Lemma chunks_fuel_zero f : chunks_fuel f 0 = [].
+Proof. destruct f; reflexivity. Qed.
+
+Lemma div_sub_chunk n : (n - 1 - chunk_size) / chunk_size = (n - 1) / chunk_size - 1.
+Proof.
+  unfold chunk_size. replace (n - 1 - 4096) with (n - 1 + (-1) * 4096) by lia.
+  rewrite Z.div_add by lia. lia.
+Qed.
+
+Lemma chunks_fuel_closed fuel : forall n,
+  1 <= n -> (n - 1) / chunk_size < Z.of_nat fuel ->
+  chunks_fuel fuel n =
+  repeat (1, chunk_size) (Z.to_nat ((n - 1) / chunk_size)) ++ [(0, n - chunk_size * ((n - 1) / chunk_size))].
+Proof.
+  induction fuel as [|f IH]; intros n Hn Hf.
+  - assert (0 <= (n - 1) / chunk_size) by (apply Z.div_pos; unfold chunk_size; lia). lia.
+  - cbn [chunks_fuel]. destruct (n <=? 0) eqn:E0; [apply Z.leb_le in E0; lia|].
+    destruct (Z_le_gt_dec n chunk_size) as [Le | Gt].
+    + rewrite Z.min_l by exact Le. replace (n - n) with 0 by lia. cbn [Z.eqb]. rewrite chunks_fuel_zero.
+      assert (D : (n - 1) / chunk_size = 0) by (apply Z.div_small; unfold chunk_size in *; lia).
+      rewrite D. cbn [Z.to_nat repeat app]. replace (n - chunk_size * 0) with n by lia. reflexivity.
+    + rewrite Z.min_r by lia.
+      destruct (n - chunk_size =? 0) eqn:E1; [apply Z.eqb_eq in E1; lia|].
+      assert (Q : (n - chunk_size - 1) / chunk_size = (n - 1) / chunk_size - 1).
+      { replace (n - chunk_size - 1) with (n - 1 - chunk_size) by lia. apply div_sub_chunk. }
+      assert (P : 1 <= (n - 1) / chunk_size).
+      { apply Z.div_le_lower_bound; unfold chunk_size in *; lia. }
+      rewrite (IH (n - chunk_size)) by lia. rewrite Q.
+      replace (Z.to_nat ((n - 1) / chunk_size)) with (S (Z.to_nat ((n - 1) / chunk_size - 1))) by lia.
+      cbn [repeat app].
+      replace (n - chunk_size - chunk_size * ((n - 1) / chunk_size - 1))
+        with (n - chunk_size * ((n - 1) / chunk_size)) by (unfold chunk_size; lia).
+      reflexivity.
+Qed.
+
+(* for every n >= 1: (n-1)/4096 full chunks with m=1, then the rest with m=0 *)
+Theorem kitty_chunks_closed_form n : 1 <= n ->
+  kitty_chunks n =
+  repeat (1, chunk_size) (Z.to_nat ((n - 1) / chunk_size)) ++ [(0, n - chunk_size * ((n - 1) / chunk_size))].
+Proof.
+  intros Hn. unfold kitty_chunks. apply chunks_fuel_closed; [exact Hn|].
+  assert (0 <= n / chunk_size) by (apply Z.div_pos; unfold chunk_size; lia).
+  rewrite Z2Nat.id by lia.
+  assert ((n - 1) / chunk_size <= n / chunk_size) by (apply Z.div_le_mono; unfold chunk_size; lia). lia.
+Qed.
+
+Lemma last_chunk_range n : 1 <= n -> 0 < n - chunk_size * ((n - 1) / chunk_size) <= chunk_size.
+Proof.
+  intros Hn. pose proof (Z.div_mod (n - 1) chunk_size ltac:(unfold chunk_size; lia)) as D.
+  pose proof (Z.mod_pos_bound (n - 1) chunk_size ltac:(unfold chunk_size; lia)) as B.
+  unfold chunk_size in *. lia.
+Qed.
+
+Lemma ceil_div_chunks n : 1 <= n -> ceil_div n chunk_size = (n - 1) / chunk_size + 1.
+Proof.
+  intros Hn. unfold ceil_div, chunk_size.
+  pose proof (Z.div_mod n 4096 ltac:(lia)) as D. pose proof (Z.mod_pos_bound n 4096 ltac:(lia)) as B.
+  pose proof (Z.div_mod (n - 1) 4096 ltac:(lia)) as D'. pose proof (Z.mod_pos_bound (n - 1) 4096 ltac:(lia)) as B'.
+  destruct (n mod 4096 =? 0) eqn:E; [apply Z.eqb_eq in E | apply Z.eqb_neq in E]; lia.
+Qed.
+
+(* ceil(n/4096) chunks *)
+Theorem kitty_chunks_count n : 1 <= n -> zlen (kitty_chunks n) = ceil_div n chunk_size.
+Proof.
+  intros Hn. rewrite kitty_chunks_closed_form by exact Hn. unfold zlen.
+  rewrite app_length, repeat_length. cbn [length]. rewrite ceil_div_chunks by exact Hn.
+  assert (0 <= (n - 1) / chunk_size) by (apply Z.div_pos; unfold chunk_size; lia). lia.
+Qed.
+
+Lemma sum_sizes_app a b : sum_sizes (a ++ b) = sum_sizes a + sum_sizes b.
+Proof.
+  unfold sum_sizes. induction a as [|x t IH]; cbn [app fold_right]; [lia|]. rewrite IH. lia.
+Qed.
+
+Lemma sum_sizes_repeat m k j : sum_sizes (repeat (m, k) j) = k * Z.of_nat j.
+Proof.
+  unfold sum_sizes. induction j as [|j IH]; [cbn [repeat fold_right]; lia|].
+  cbn [repeat fold_right snd]. rewrite IH. lia.
+Qed.
+
+(* the chunks are the payload, cut: their sizes add up to n *)
+Theorem kitty_chunks_sum n : 1 <= n -> sum_sizes (kitty_chunks n) = n.
+Proof.
+  intros Hn. rewrite kitty_chunks_closed_form by exact Hn. rewrite sum_sizes_app, sum_sizes_repeat.
+  assert (0 <= (n - 1) / chunk_size) by (apply Z.div_pos; unfold chunk_size; lia).
+  rewrite Z2Nat.id by lia. unfold sum_sizes. cbn [fold_right snd]. lia.
+Qed.
+
+(* every chunk but the last: m = 1 and 4096 bytes; the last: m = 0 and 1..4096 bytes *)
+Theorem kitty_chunks_flags n : 1 <= n ->
+  exists body k, kitty_chunks n = body ++ [(0, k)] /\ 0 < k <= chunk_size /\
+                 forall c, In c body -> c = (1, chunk_size).
+Proof.
+  intros Hn. eexists; eexists. split; [apply kitty_chunks_closed_form; exact Hn|].
+  split; [apply last_chunk_range; exact Hn|]. intros c I. apply repeat_spec in I. exact I.
+Qed.
+
+Lemma framing_ok_closed j k : 0 < k <= chunk_size -> framing_ok (repeat (1, chunk_size) j ++ [(0, k)]) = true.
+Proof.
+  intros Hk. induction j as [|j IH].
+  - cbn [repeat app framing_ok]. rewrite Z.eqb_refl. cbn [andb].
+    apply andb_true_intro; split; [apply Z.ltb_lt | apply Z.leb_le]; lia.
+  - cbn [repeat app]. remember (repeat (1, chunk_size) j ++ [(0, k)]) as t eqn:E.
+    destruct t as [|c t'].
+    + destruct j; discriminate.
+    + change (framing_ok ((1, chunk_size) :: c :: t'))
+        with ((1 =? 1) && (0 <? chunk_size) && (chunk_size <=? chunk_size) && (chunk_size mod 4 =? 0) &&
+              framing_ok (c :: t')).
+      rewrite IH. reflexivity.
+Qed.
+
+Lemma tx_chunks_model l : tx_chunks (map (fun c : Z * Z => (0, fst c, snd c)) l ++ [(1, 0, 0)]) = Some l.
+Proof.
+  induction l as [|[m k] t IH]; [reflexivity|].
+  cbn [map app tx_chunks fst snd Z.eqb]. rewrite IH. reflexivity.
+Qed.
+
+Theorem framing_ok_model n : 1 <= n -> framing_ok (kitty_chunks n) = true.
+Proof.
+  intros Hn. rewrite kitty_chunks_closed_form by exact Hn. apply framing_ok_closed. apply last_chunk_range. exact Hn.
+Qed.
+
+(* the model's transmission satisfies the predicate of the kittytx stream, for every payload length *)
+Theorem tx_model_ok n : 1 <= n -> tx_ok (n, tx_model n, 1) = true.
+Proof.
+  intros Hn. unfold tx_ok, tx_model. rewrite tx_chunks_model.
+  rewrite framing_ok_model, kitty_chunks_sum by exact Hn. rewrite Z.eqb_refl. reflexivity.
+Qed.
+
+(* what the predicate means: an accepted transmission is chunks then the placement command, the last
+   chunk - and only it - closes the transfer *)
+Lemma framing_ok_last l : framing_ok l = true ->
+  exists body k, l = body ++ [(0, k)] /\ forall c, In c body -> fst c = 1.
+Proof.
+  induction l as [|[m k] t IH]; [discriminate|]. cbn [framing_ok]. destruct t as [|c t'].
+  - intros H. apply andb_true_iff in H. destruct H as [H _]. apply andb_true_iff in H. destruct H as [H _].
+    apply Z.eqb_eq in H. subst m. exists [], k. split; [reflexivity | intros ? []].
+  - intros H. apply andb_true_iff in H. destruct H as [H F].
+    apply andb_true_iff in H. destruct H as [H _]. apply andb_true_iff in H. destruct H as [H _].
+    apply andb_true_iff in H. destruct H as [H _]. apply Z.eqb_eq in H. subst m.
+    destruct (IH F) as [body [k' [E B]]]. exists ((1, k) :: body), k'. split; [rewrite E; reflexivity|].
+    intros c0 [<- | I]; [reflexivity | apply B; exact I].
+Qed.
+
+Lemma tx_chunks_shape toks : forall l, tx_chunks toks = Some l ->
+  exists a b, toks = map (fun c : Z * Z => (0, fst c, snd c)) l ++ [(1, a, b)].
+Proof.
+  induction toks as [|[[tag m] sz] t IH]; intros l E; [discriminate|].
+  cbn [tx_chunks] in E. destruct (tag =? 0) eqn:T0.
+  - apply Z.eqb_eq in T0. subst tag. destruct (tx_chunks t) as [l'|] eqn:E'; [|discriminate].
+    injection E as <-. destruct (IH l' eq_refl) as [a [b ->]]. exists a, b. reflexivity.
+  - destruct (tag =? 1) eqn:T1; [|discriminate]. apply Z.eqb_eq in T1. subst tag.
+    destruct t; [|discriminate]. injection E as <-. exists m, sz. reflexivity.
+Qed.
+
+(* an accepted transmission: data chunks of the image, all open (m=1) but the last, which closes the
+   transfer (m=0); then, and only then, the placement command; the payload is complete *)
+Theorem tx_ok_meaning n toks same : tx_ok (n, toks, same) = true ->
+  exists body k a b,
+    toks = map (fun c : Z * Z => (0, fst c, snd c)) (body ++ [(0, k)]) ++ [(1, a, b)] /\
+    (forall c, In c body -> fst c = 1) /\ sum_sizes (body ++ [(0, k)]) = n /\ same = 1.
+Proof.
+  unfold tx_ok. destruct (tx_chunks toks) as [l|] eqn:E; [|discriminate]. intros H.
+  apply andb_true_iff in H. destruct H as [H S]. apply andb_true_iff in H. destruct H as [F Sm].
+  apply Z.eqb_eq in S, Sm. destruct (framing_ok_last l F) as [body [k [El B]]].
+  destruct (tx_chunks_shape toks l E) as [a [b T]].
+  exists body, k, a, b. rewrite <- El. repeat split; assumption.
 Qed.
